@@ -82,6 +82,39 @@ func (c *Ctx) helpers() map[*types.Func]*helperInfo {
 		}
 	}
 	c.helperTab = tab
+	// single call site of a post-baseline helper (for name-insensitive keys of reviewed exception tables)
+	canonSingleCaller = func(h *FuncInfo) (*FuncInfo, *ast.CallExpr) {
+		if h == nil || h.Obj == nil {
+			return nil, nil
+		}
+		hi := tab[h.Obj]
+		if hi == nil || hi.escapes || len(hi.callers) != 1 {
+			return nil, nil
+		}
+		var caller *FuncInfo
+		for name := range hi.callers {
+			caller = c.P.Fn(name)
+		}
+		if caller == nil || caller.Body == nil {
+			return nil, nil
+		}
+		info := caller.Pkg.TypesInfo
+		var site *ast.CallExpr
+		n := 0
+		ast.Inspect(caller.Body, func(nd ast.Node) bool {
+			if call, ok := nd.(*ast.CallExpr); ok {
+				if fn, _ := typeutil.Callee(info, call).(*types.Func); fn != nil && fn.Origin() == h.Obj {
+					site = call
+					n++
+				}
+			}
+			return true
+		})
+		if n != 1 {
+			return nil, nil
+		}
+		return caller, site
+	}
 	return tab
 }
 
